@@ -9,6 +9,8 @@ import (
 	"encoding/json"
 	"errors"
 	"fmt"
+	"github.com/brutella/hc/accessory"
+	"github.com/brutella/hc/characteristic"
 	"math"
 	"math/rand"
 	"strconv"
@@ -196,6 +198,7 @@ func c12Corpus() []func() *charCaseSpec {
 }
 
 func checkC12(c *Ctx) {
+	c12Rebound(c)
 	c.SetRule("one case = one characteristic (every zero-argument constructor of package characteristic, and custom " +
 		"format/permission/bound combinations) and a sequence of 1–8 local/remote updates and reads with type-directed dynamic values; " +
 		"non-trivial = at least one step got past the equality and permission checks (callbacks ran), was refused by a permission, or panicked; " +
@@ -482,5 +485,89 @@ func runCharSpecs(c *Ctx, prop, stream string, specs []*charCaseSpec, put putRun
 			c.Sample(trunc(lines[i], 260) + "  =>  " + trunc(impl, 260))
 		}
 		c.Trace()
+	}
+}
+
+// c12Rebound: the declared range itself changes (Int/Float SetMinValue / SetMaxValue, and the accessory constructors that
+// take a range: NewThermostat, NewTemperatureSensor). After every step on which min ≤ max holds, the stored value lies
+// within the range that is declared NOW.
+func c12Rebound(c *Ctx) {
+	for i := 0; i < c.Pick(300, 20000); i++ {
+		id := c.CaseID("rebound", i)
+		if c.Skip(id) {
+			continue
+		}
+		r := c.CaseRng("rebound", i)
+		pick := func() float64 {
+			return []float64{-273.15, -90, -20, -5, -0.5, 0, 0.1, 1, 8, 10, 25.5, 30, 50, 80, 100, 120, 200, 1e6}[r.Intn(18)]
+		}
+		var steps []string
+		switch i % 4 {
+		case 0, 1: // a float / an int characteristic, random setter sequence
+			isInt := i%4 == 1
+			fl := characteristic.NewCurrentTemperature()
+			in := characteristic.NewBrightness()
+			for k := 0; k < 2+r.Intn(8); k++ {
+				v := pick()
+				op := []string{"SetValue", "SetMinValue", "SetMaxValue"}[r.Intn(3)]
+				steps = append(steps, fmt.Sprintf("%s(%v)", op, v))
+				if isInt {
+					switch op {
+					case "SetValue":
+						in.SetValue(int(v))
+					case "SetMinValue":
+						in.SetMinValue(int(v))
+					default:
+						in.SetMaxValue(int(v))
+					}
+					mn, _ := in.MinValue.(int)
+					mx, _ := in.MaxValue.(int)
+					if val, ok := in.Value.(int); ok && mn <= mx && (val < mn || val > mx) {
+						c.Violate("C12: stored value outside the declared range after the range was changed", id, steps, fmt.Sprintf("within [%d, %d]", mn, mx), fmt.Sprint(val))
+						break
+					}
+				} else {
+					switch op {
+					case "SetValue":
+						fl.SetValue(v)
+					case "SetMinValue":
+						fl.SetMinValue(v)
+					default:
+						fl.SetMaxValue(v)
+					}
+					mn, _ := fl.MinValue.(float64)
+					mx, _ := fl.MaxValue.(float64)
+					if val, ok := fl.Value.(float64); ok && mn <= mx && (val < mn || val > mx) {
+						c.Violate("C12: stored value outside the declared range after the range was changed", id, steps, fmt.Sprintf("within [%v, %v]", mn, mx), fmt.Sprint(val))
+						break
+					}
+				}
+			}
+		default: // constructors with a range
+			a, b := pick(), pick()
+			if a > b {
+				a, b = b, a
+			}
+			temp := pick()
+			want := math.Min(math.Max(temp, a), b)
+			steps = []string{fmt.Sprintf("temp=%v min=%v max=%v", temp, a, b)}
+			var got []float64
+			if i%4 == 2 {
+				t := accessory.NewThermostat(accessory.Info{Name: "T"}, temp, a, b, 0.5)
+				got = []float64{t.Thermostat.CurrentTemperature.GetValue(), t.Thermostat.TargetTemperature.GetValue()}
+				steps = append(steps, "NewThermostat")
+			} else {
+				t := accessory.NewTemperatureSensor(accessory.Info{Name: "T"}, temp, a, b, 0.5)
+				got = []float64{t.TempSensor.CurrentTemperature.GetValue()}
+				steps = append(steps, "NewTemperatureSensor")
+			}
+			for _, g := range got {
+				if g != want {
+					c.Violate("C12: a constructor that takes a value and a range stores a value outside that range (or not the value given, when it lies inside)", id, steps, fmt.Sprint(want), fmt.Sprint(g))
+					break
+				}
+			}
+		}
+		c.Count(fmt.Sprint(steps), true, "stream:rebound", fmt.Sprintf("rebound:kind=%d", i%4))
 	}
 }
